@@ -97,6 +97,7 @@ def c10(tier):
     run_family(chk, "server", "prod", ["--seed", s, "--n", 0, "--behaviours", beh], [ST], "tlc-behaviours")
     run_family(chk, "server", "prod", ["--seed", s, "--n", 8000 if thorough else 1200, "--mode", "streams"], [ST], "streams")
     run_family(chk, "server", "prod", ["--seed", s + 4, "--n", 4000 if thorough else 600, "--mode", "hotstream"], [ST], "hotstream")
+    run_family(chk, "server", "prod", ["--seed", s + 5, "--n", 4000 if thorough else 600, "--mode", "manystreams"], [ST], "manystreams")
     run_family(chk, "server", "prod", ["--seed", s + 2, "--n", 6000 if thorough else 900, "--mode", "faulty"], [ST],
                "streams-faulty")
     chk.nontrivial = chk.traces_ok
